@@ -16,7 +16,11 @@ Ties, re-run by every check:
      reads of `idle_reset_time`.
 The oracle is written from the property text over the function's (start, end) timestamps per
 (uid, handler id), the object versions the operator processed, and the observed patch round trips;
-it never consults the model.
+it never consults the model. Clauses: O1 overlap, O2-O4 interval / sharp grid / error delay (not earlier; not later
+unless within idle after an ESSENTIAL change the operator had seen: open finding C10-F3 otherwise), O5 initial delay,
+O6 idle, O7 failed for good / one-shot is the last, O8 the post-run patch takes no longer than its API requests,
+O9 the task never ends by an exception (an API error in the post-run patch: open finding C10-F4), O10 the schedule
+goes on: the run that is due after the last observed one of a task nobody stopped does start.
 
 Local harness features (not in harness/sim): a worker of its own (`python -m harness.props.c10 --worker`)
 that adds a probe (module-attribute patching of `daemons._timer`, `execution.execute_handlers_once`,
@@ -43,11 +47,19 @@ from ..core import Ctx, ExtractError, load_corpus
 
 ID = "C10"
 LEVEL = "proof"
-STRENGTH = "full"      # every clause has an unguarded theorem (C10-F1, C10-F2 are fixed; their witnesses are regressions)
+STRENGTH = "partial"   # "unless idling postpones it" is exact only under the guard `Settled` (open finding C10-F3: non-essential events reset idling); the schedule's continuation is not a theorem and is false after an API error in the post-run patch (open finding C10-F4)
 ENGINES = ["lean-model", "pyextract", "kopfsim"]
 LEVEL_TEXT = (
-    "FULL by DESIGN §8's definition (every clause has an unguarded theorem; the former gaps C10-F1 and C10-F2 are repaired in "
-    "/repo and their witnesses are regression examples in Lean and in the corpus). "
+    "PARTIAL since the white-box review: the safety clauses (no overlap, not earlier than interval / grid / error delay / initial "
+    "delay, no run within idle after an essential change) have unguarded theorems (the former gaps C10-F1 and C10-F2 are repaired "
+    "in /repo, their witnesses are regressions). 'Unless idling postpones it' is NOT exact in the code: idling is reset by every "
+    "event of an object that differs from what is stored as last handled, and by every event at all when nothing is stored "
+    "(timer-only operators) — the timer's own result patch postpones its next run / re-triggers an idle-only timer (open finding "
+    "C10-F3: essential_resets, reset_iff_essential_partial + nonessential_reset_witness, interval_exact_when_settled_partial + "
+    "interval_postponed_by_own_patch_witness; the oracle allows a postponement only within idle after an ESSENTIAL change). That "
+    "the schedule goes on is an oracle clause (next-run-missing), not a theorem (Sched is prefix-closed); it is false when the "
+    "post-run patch raises an API error: the task ends and _runner records the handler as stopped for ever (open finding C10-F4: "
+    "Exit/foreverAfter, raised_is_never_respawned_witness, runner_marks_eq ties _runner's finally). "
     "Lean theorems about a state-carrying model of the _timer loop (the in-memory handler state "
     "incl. the series' `started` is carried from iteration to iteration; whether an iteration invokes the function is derived "
     "from it), for ALL configurations (interval/sharp/idle/initial_delay present or absent, backoff, errors mode, retries, "
@@ -78,15 +90,18 @@ THEOREMS = [("Kopf.Props.C10", "Kopf.C10." + n) for n in [
     "success_marks_state", "interval_law_step", "interval_law", "sharp_grid_step", "sharp_grid", "error_delay_step",
     "error_delay_law", "initial_delay_law", "idle_law", "idle_law_full", "idle_law_recv",
     "idle_only_law", "one_shot",
-    "invoked_unless_failed_no_timeout", "timeout_ends_series", "first_attempt_not_timed_out"]]
+    "invoked_unless_failed_no_timeout", "timeout_ends_series", "first_attempt_not_timed_out",
+    "essential_resets", "reset_iff_essential_partial", "nonessential_reset_witness", "interval_exact_when_settled_partial",
+    "interval_postponed_by_own_patch_witness", "stopped_stays_respawnable", "raised_is_never_respawned_witness"]]
 TIE_THEOREMS = [("Kopf.Tie.C10", "Kopf.C10.Tie." + n) for n in [
-    "post_eq", "reset_top_eq", "at_top_eq", "restart_clock_eq", "at_start_eq", "forever_stopped_eq", "reset_cond_eq", "resets_idle_eq", "stamp_sites_eq", "idle_cond_eq", "idle_delay_eq", "poll_cond_eq", "poll_delay_eq", "shape_eq", "stopper_guards_eq", "idle_step_eq", "poll_step_eq"]]
+    "post_eq", "reset_top_eq", "at_top_eq", "restart_clock_eq", "at_start_eq", "forever_stopped_eq", "runner_marks_eq", "reset_cond_eq", "resets_idle_eq", "stamp_sites_eq", "idle_cond_eq", "idle_delay_eq", "poll_cond_eq", "poll_delay_eq", "shape_eq", "stopper_guards_eq", "idle_step_eq", "poll_step_eq"]]
 RULE = ("seeded scenarios: 1-2 timers on 1-2 objects, all 16 presence combinations of interval/sharp/idle/initial_delay "
         "(stratified), scripted results ok/ok+result/ok+patch/temporary(delay)/arbitrary/permanent with function durations "
         "0, <, =-1tick, =, =+1tick, > the interval (1.5x, 2x, 2.5x), backoff/retries/errors/timeout options (timeout below, at, above "
         "idle and interval), optional slow @kopf.on.event handler (the event is processed later than received), optional update handler "
         "(so that status patches are / are not idle resets), status subresource (2 PATCH round trips), object edits at random "
-        "dyadic times, label toggles (respawn) and operator restarts for timers with an interval; a second pass replays a "
+        "dyadic times, label toggles (respawn) and operator restarts for timers with an interval, backoff 0, 12 % with HTTP 500/503 "
+        "injected 1-9 times into the PATCH that delivers a timer's result (retried by the client within the request; 4+ exhaust it); a second pass replays a "
         "third of the scenarios with one extra edit placed exactly at an observed start, at start - idle, and 1 tick either "
         "side; one case = one loop iteration (or spawn -> first iteration), one processed event (reset decision) or one timer "
         "task's reads of idle_reset_time (derived view); distinct & non-trivial = distinct abstracted (option presence, carried "
@@ -100,12 +115,26 @@ ASSUMPTIONS = ["interval > 0 and idle > 0 where present (interval = 0 divides by
                "the cycle: the two coincide unless `@kopf.index` handlers or the start-up index wait take time (no index "
                "handlers are generated)",
                "the stopper is not modelled: it only truncates a run sequence (every loop condition carries it: stopper_guards_eq)",
+               "an exception out of the post-run patch truncates the sequence too (Exit.raised; open finding C10-F4): the oracle reports "
+               "it, the step tie treats it as the end of the task; API errors are injected into the timers' result patches only, not into "
+               "the requests of the object's processing cycle (an error there throttles the worker: C12's subject)",
+               "the oracle's bound on the duration of the post-run patch (its API requests x 1/64 s) is checked in scenarios without "
+               "injected faults only",
                "initial_delay is a number (callables are evaluated by the same line of code)"]
 
 F2_SIG = {"site": "processing.process_resource_causes",
           "shape": "idling is reset only after the on.event handlers of the cycle: a timer runs while an essential change is being processed"}
 F1_SIG = {"site": "processing._detect_causes",
           "shape": "an essential change that restores the last-handled essence is not an idle reset"}
+F3_SIG = {"site": "processing._detect_causes",
+          "shape": "idling is reset by an event that is not an essential change (nothing stored as last handled, or a change not handled yet): "
+                   "the next run is postponed / an idle-only timer runs again"}
+F4_SIG = {"site": "daemons._timer / daemons._runner",
+          "shape": "an API error escaping the post-run patch ends the timer task for good: no next run"}
+# exceptions that are infrastructure errors of the post-run patch (kopf._cogs.clients.errors, aiohttp, asyncio)
+INFRA_ERRORS = ("APIError", "APIServerError", "APIClientError", "APIForbiddenError", "APIUnauthorizedError", "APINotFoundError",
+                "APIConflictError", "APITooManyRequestsError", "APISessionClosed", "ClientError", "ClientConnectionError",
+                "ClientResponseError", "ServerDisconnectedError", "TimeoutError", "ClientOSError")
 
 ROOT = Path(__file__).resolve().parent.parent.parent
 TPS = 64
@@ -279,9 +308,30 @@ def _extract_reset(ctx: Ctx) -> tuple[str, list[str]]:
     return cond, sites
 
 
+RUNNER_VOCAB = {"stopper.reason is None": "a.reasonIsNone"}
+
+
+def _extract_runner(tree: ast.Module) -> str:
+    """`daemons._runner`: `_timer` is awaited inside a `try:` with no handler (an exception ends the task), and the
+    `finally:` begins with `if <cond>: memory.forever_stopped.add(handler.id)` → the condition."""
+    fn = pyextract.find_def(tree, "_runner")
+    tries = [st for st in pyextract.body_without_docstring(fn) if isinstance(st, ast.Try)]
+    if len(tries) != 1 or tries[0].handlers or tries[0].orelse or not tries[0].finalbody:
+        raise ExtractError("_runner: expected one `try: … finally:` without except-handlers around the task wrappers")
+    calls = [n for n in ast.walk(ast.Module(body=tries[0].body, type_ignores=[])) if isinstance(n, ast.Call) and pyextract.norm(n.func) == "_timer"]
+    if len(calls) != 1:
+        raise ExtractError("_runner: `_timer(...)` is not awaited exactly once inside the try")
+    marks = [st for st in tries[0].finalbody if isinstance(st, ast.If) and not st.orelse and len(st.body) == 1
+             and pyextract.norm(st.body[0]) == "memory.forever_stopped.add(handler.id)"]
+    if len(marks) != 1 or marks[0] is not tries[0].finalbody[0]:
+        raise ExtractError("_runner: the `finally:` does not begin with the forever_stopped mark")
+    return pyextract.BoolTranslator(RUNNER_VOCAB).tr(marks[0].test)
+
+
 def extract(ctx: Ctx) -> None:
     reset_cond, stamp_sites = _extract_reset(ctx)
     tree = pyextract.parse_file(ctx.repo / "kopf/_core/engines/daemons.py")
+    runner_marks = _extract_runner(tree)
     fn = pyextract.find_def(tree, "_timer")
     body = pyextract.body_without_docstring(fn)
     aliases = {"resource = cause.resource", "stopper = cause.stopper", "logger = cause.logger", "patch = cause.patch",
@@ -391,6 +441,8 @@ def extract(ctx: Ctx) -> None:
     out += f"def resetAtTop (a : TopAtoms) : Bool := {reset_top}\n\n"
     out += f"def restartsClock (a : StartAtoms) : Bool := {restart_clock}\n\n"
     out += f"def marksForeverStopped (a : TopAtoms) : Bool := {forever}\n\n"
+    out += "/-- daemons._runner, `finally:` the ended task's handler is never spawned again -/\n"
+    out += f"def runnerMarksForever (a : RunnerAtoms) : Bool := {runner_marks}\n\n"
     out += "/-- processing._detect_causes: the event resets idling -/\n"
     out += f"def resetCond (a : ResetAtoms) : Bool := {reset_cond}\n\n"
     out += f"def stampSites : List StampSite := [{', '.join(stamp_sites)}]\n\n"
@@ -645,13 +697,15 @@ def run_one(sc: dict, wall: float) -> dict:
         tr["sim_error"] = f"{type(e).__name__}: {e}"
     calls = [{k: c.get(k) for k in ("t", "t_end", "uid", "id", "retry", "outcome", "delay", "n", "inc")}
              for c in tr.get("calls", []) if c.get("kind") == "timer"]
-    cycles = [{"i": c["i"], "t0": c["t0"], "t1": c.get("t1"), "uid": c["uid"], "event_type": c["event_type"], "rv": c["rv"], "ess": _essence(c["body"]),
+    cycles = [{"i": c["i"], "t0": c["t0"], "t1": c.get("t1"), "uid": c["uid"], "name": c["body"].get("metadata", {}).get("name"),
+               "event_type": c["event_type"], "rv": c["rv"], "ess": _essence(c["body"]),
                "marked": bool(c["body"].get("metadata", {}).get("deletionTimestamp")), "inc": c["inc"],
                "lh_same": _lh_same(c["body"]), "ess_norm": _norms(c["body"])[0], "lh_norm": _norms(c["body"])[1]}
               for c in tr.get("cycles", [])]
-    npatch = sum(1 for r in tr.get("requests", []) if r.get("method") == "PATCH")
+    patches = [{"t": r.get("t"), "path": r.get("path"), "resp": r.get("response"), "fault": bool(r.get("fault"))}
+               for r in tr.get("requests", []) if r.get("method") == "PATCH"]
     return {"calls": calls, "cycles": cycles, "marks": tr.get("marks", []), "sim_error": tr.get("sim_error"),
-            "c10": probe.export(), "patch_requests": npatch}
+            "c10": probe.export(), "patch_requests": len(patches), "patches": patches}
 
 
 def _worker_main(wall: float) -> None:
@@ -741,7 +795,7 @@ def gen_timer(rng: Any, combo: int, tid: str, default_backoff: float) -> dict:
     if has_d:
         opts["initial_delay"] = rng.choice(DELAYS)
     if rng.random() < 0.5:
-        opts["backoff"] = rng.choice([0.25, 0.5, 1.5, T])
+        opts["backoff"] = rng.choice([0.25, 0.5, 1.5, T, 0.0])     # 0: retried at once (not the default backoff)
     if rng.random() < 0.25:
         opts["retries"] = rng.choice([1, 2, 3])
     if rng.random() < 0.2:
@@ -826,6 +880,14 @@ def gen_scenario(rng: Any, seed: int, combo: int) -> dict:
             timeline.append([rng.randrange(int(4 * TPS), int(end * TPS)) / TPS, "delete", "a"])
     if rng.random() < 0.25:
         sc["status_subresource"] = True
+    if rng.random() < 0.12:
+        # API errors on the PATCH that delivers a timer's result: 1-2 are retried by the client within the request
+        # (settings.networking.error_backoffs = 1, 1, 2 s in the harness: the patch takes seconds), 4+ exhaust it
+        ns = [a[1]["n"] for t in timers for a in (x[2] if isinstance(x, list) and x[0] == "sleep" else x for x in t["script"])
+              if isinstance(a, list) and a[0] == "ok" and len(a) > 1 and a[1].get("n")]
+        if ns:
+            sc["faults"] = [{"match": {"method": "PATCH", "payload_contains": f"'n': {rng.choice(ns)}" + "}"},
+                             "fault": ["status", rng.choice([500, 503])], "times": rng.choice([1, 1, 2, 3, 4, 9])}]
     sc["timeline"] = sorted(timeline, key=lambda e: e[0])
     sc["end"] = end
     return sc
@@ -909,6 +971,26 @@ def oracle(ctx: Ctx, sc: dict, tr: dict, stats: dict | None = None) -> None:
     def fail(clause: str, what: str, **info: Any) -> None:
         ctx.oracle_fail(what, {"scenario": sc, **info}, {"site": "daemons._timer", "clause": clause})
 
+    faulty = bool(sc.get("faults"))
+    end_t = float(sc.get("end", 60.0))
+    name_of = {c["uid"]: c.get("name") for c in tr["cycles"]}
+    all_patches = tr.get("patches")
+
+    # O9 — a timer task never ends by an exception (the handler's own errors are outcomes, not exceptions of the task)
+    for i in insts:
+        how = str(i.get("how") or "")
+        if not how.startswith("error") or i["id"] not in cfgs:
+            continue
+        last = i["iters"][-1] if i["iters"] else None
+        in_patch = last is not None and last.get("p0") is not None and last.get("p1") is None
+        what = (f"timer {i['id']}: the task ended at {i['exit']} with {how[6:]}"
+                + (" raised by the post-run patch of the run started at " + str(last["t0"]) if in_patch else "")
+                + (": no run will ever follow in this operator process" if i.get("stop_reason") in (None, "None") else ""))
+        if in_patch and how[6:] in INFRA_ERRORS:
+            ctx.oracle_fail(what, {"scenario": sc, "uid": i["uid"], "id": i["id"], "exit": i["exit"]}, F4_SIG)
+        else:
+            fail("crashed", what, uid=i["uid"], id=i["id"], exit=i["exit"])
+
     for (uid, hid), calls in by_key.items():
         cfg = cfgs.get(hid)
         if cfg is None:
@@ -949,12 +1031,58 @@ def oracle(ctx: Ctx, sc: dict, tr: dict, stats: dict | None = None) -> None:
             return min(ts) if ts else None
 
         def last_cycle_upto(t: float) -> float | None:
-            # idling may postpone a run until `idle` after an event of the object was processed: the END of the
-            # latest processing cycle begun by then bounds every reset stamped so far
+            # the END of the latest processing cycle begun by then bounds every reset stamped so far
             ts = [(c["t1"] if c.get("t1") is not None else c["t0"]) for c in cycles if c["t0"] <= t]
             return max(ts) if ts else None
 
+        change_ids = {c["i"] for c in changes}
+
+        def cyc_end(c: dict) -> float:
+            return c["t1"] if c.get("t1") is not None else float("inf")     # an unfinished cycle may still stamp
+
+        def excuse(t: float) -> str | None:
+            """Why a run at `t` may be later than its schedule: "idle" — it is within (not beyond) the idle time after an
+            ESSENTIAL change the operator had seen by then (the reset is stamped between the start and the end of that
+            change's processing cycle); "f3" — only an event that is NOT an essential change, on an object that differs
+            from what is stored as last handled (or with nothing stored), explains it: kopf resets idling there too
+            (open finding C10-F3); None — nothing the property allows."""
+            if cfg["idle"] is None:
+                return None
+            if any(c["t0"] <= t <= cyc_end(c) + cfg["idle"] for c in changes):
+                return "idle"
+            if any(c["i"] not in change_ids and c.get("lh_same") is not True and c["t0"] <= t <= cyc_end(c) + cfg["idle"] for c in cycles):
+                return "f3"
+            return None
+
+        def iter_of(c: dict) -> dict | None:
+            i_ = inst_of(c)
+            for it in (i_["iters"] if i_ else []):
+                if it["t0"] == c["t"] and it.get("attempt") == c.get("retry"):
+                    return it
+            return None
+
+        def f3(what: str, **info: Any) -> None:
+            ctx.oracle_fail(what + " — postponed/triggered only by an event that is not an essential change of the object",
+                            {"scenario": sc, "uid": uid, "id": hid, **info}, F3_SIG)
+
+        # O8 — the post-run patch takes no longer than its API requests (1/64 s each in the fake cluster, no faults injected):
+        # "one interval after the previous run ended" leaves room for the delivery of the result, not for anything else
+        if not faulty and all_patches is not None:
+            mine_p = [r for r in all_patches if r.get("t") is not None and
+                      (name_of.get(uid) is None or str(r.get("path", "")).rstrip("/").split("/")[-1] in (name_of[uid], "status"))]
+            for c in calls:
+                it = iter_of(c)
+                if it is None or it.get("p0") is None or it.get("p1") is None:
+                    continue
+                n_req = sum(1 for r in mine_p if it["p0"] <= r["t"] <= it["p1"])
+                if it["p1"] - it["p0"] > n_req * T + 1e-9:
+                    fail("patch-duration", f"timer {hid}: the post-run patch of the run ended at {c.get('t_end')} took {it['p1'] - it['p0']} s "
+                         f"for {n_req} API request(s) of 1/64 s: the schedule of the next run is shifted by a wait the property does not allow",
+                         uid=uid, id=hid, call=c)
+                    break
+
         failed_for_good: dict[Any, dict] = {}
+        one_shot_done: dict[Any, dict] = {}
         for k, b in enumerate(calls):
             # O5 — the first run of every spawn is not earlier than the initial delay
             i = inst_of(b)
@@ -1001,17 +1129,28 @@ def oracle(ctx: Ctx, sc: dict, tr: dict, stats: dict | None = None) -> None:
                 fail("permanent", f"timer {hid}: run at {b['t']} (retry={b.get('retry')}) after the run at {f0['t']} had failed for good ({f0.get('outcome')})",
                      uid=uid, id=hid, prev=f0, call=b)
                 continue
-            if inst_of(a) is not i or i is None:
+            ia = inst_of(a)
+            if kind == "success" and cfg["interval"] is None and cfg["idle"] is None and ia is not None \
+                    and ia.get("how") == "returned" and ia.get("stop_reason") in (None, "None"):
+                one_shot_done[a["inc"]] = a     # neither interval nor idle: the task ended on its own after this run
+            if b["inc"] in one_shot_done:
+                f0 = one_shot_done[b["inc"]]
+                fail("one-shot", f"timer {hid} has neither interval nor idle: run at {b['t']} after the one-shot run at {f0['t']} had succeeded",
+                     uid=uid, id=hid, prev=f0, call=b)
+                continue
+            if ia is not i or i is None:
                 continue        # a respawn in between: the gap belongs to the initial delay
             pat = patched_of(a)
             rt = None if pat is None else pat - a["t_end"]
-            lastc = last_cycle_upto(b["t"])
-            allowance = None if (cfg["idle"] is None or lastc is None) else lastc + cfg["idle"]
             if stats is not None and rt is not None:
                 stats["rt"][round(rt * TPS)] = stats["rt"].get(round(rt * TPS), 0) + 1
 
-            def late(ub: float) -> bool:
-                return b["t"] > ub and (allowance is None or b["t"] > allowance)
+            def late(ub: float) -> str | None:
+                """None: on time or postponed by idling as the property allows; "f3" / "late" otherwise"""
+                if b["t"] <= ub:
+                    return None
+                ex = excuse(b["t"])
+                return None if ex == "idle" else "f3" if ex == "f3" else "late"
 
             if kind == "retry":
                 assert d is not None
@@ -1019,16 +1158,22 @@ def oracle(ctx: Ctx, sc: dict, tr: dict, stats: dict | None = None) -> None:
                     fail("error-delay", f"timer {hid}: retry at {b['t']} earlier than the failed run's end {a['t_end']} + delay {d}",
                          uid=uid, id=hid, prev=a, call=b)
                 elif pat is not None and late(max(a["t_end"] + d, pat)):
-                    fail("error-delay-late", f"timer {hid}: retry at {b['t']} later than end {a['t_end']} + delay {d} (patch ended {pat}) with no idling",
-                         uid=uid, id=hid, prev=a, call=b)
+                    what = f"timer {hid}: retry at {b['t']} later than end {a['t_end']} + delay {d} (patch ended {pat}) with no idling"
+                    if late(max(a["t_end"] + d, pat)) == "f3":
+                        f3(what, prev=a, call=b)
+                    else:
+                        fail("error-delay-late", what, uid=uid, id=hid, prev=a, call=b)
             elif kind == "success" and cfg["interval"] is not None and not cfg["sharp"]:
                 iv = cfg["interval"]
                 if b["t"] < a["t_end"] + iv:
                     fail("interval", f"timer {hid}: next run at {b['t']} earlier than the previous end {a['t_end']} + interval {iv}",
                          uid=uid, id=hid, prev=a, call=b)
                 elif pat is not None and late(pat + iv):
-                    fail("interval-late", f"timer {hid}: next run at {b['t']} later than end {a['t_end']} + interval {iv} + patch round trip {rt} with no idling",
-                         uid=uid, id=hid, prev=a, call=b)
+                    what = f"timer {hid}: next run at {b['t']} later than end {a['t_end']} + interval {iv} + patch round trip {rt} with no idling"
+                    if late(pat + iv) == "f3":
+                        f3(what, prev=a, call=b)
+                    else:
+                        fail("interval-late", what, uid=uid, id=hid, prev=a, call=b)
                 elif stats is not None and pat is not None and b["t"] <= pat + iv:
                     s = round((b["t"] - a["t_end"] - iv) * TPS)
                     stats["slack"][s] = stats["slack"].get(s, 0) + 1
@@ -1050,16 +1195,66 @@ def oracle(ctx: Ctx, sc: dict, tr: dict, stats: dict | None = None) -> None:
                 elif b["t"] < g:
                     fail("sharp-early", f"timer {hid}: sharp run at {b['t']} before the grid point {g} (start {a['t']} + {kk}*{iv}) that follows the previous run's patch end {pat}",
                          uid=uid, id=hid, prev=a, call=b)
-                elif allowance is not None and b["t"] <= allowance:
+                elif excuse(b["t"]) == "idle":
                     pass    # postponed by idling: may leave the grid
                 else:
-                    fail("sharp-grid", f"timer {hid}: sharp run at {b['t']} is not the grid point {g} (start {a['t']} + k*{iv}) following the previous run's patch end {pat}",
-                         uid=uid, id=hid, prev=a, call=b)
+                    what = f"timer {hid}: sharp run at {b['t']} is not the grid point {g} (start {a['t']} + k*{iv}) following the previous run's patch end {pat}"
+                    if excuse(b["t"]) == "f3":
+                        f3(what, prev=a, call=b)
+                    else:
+                        fail("sharp-grid", what, uid=uid, id=hid, prev=a, call=b)
             elif kind == "success" and cfg["interval"] is None and cfg["idle"] is not None:
                 # idle-only: needs a change since the previous run, and the idle time after it
-                if not any(a["t"] <= (c["t1"] if c.get("t1") is not None else c["t0"]) and c["t0"] + cfg["idle"] <= b["t"] for c in cycles):
-                    fail("idle-only", f"timer {hid}: idle-only run at {b['t']} with no object event processed in [{a['t']}, {b['t']} - idle]",
-                         uid=uid, id=hid, prev=a, call=b)
+                def since(c: dict) -> bool:
+                    return a["t"] <= (c["t1"] if c.get("t1") is not None else c["t0"]) and c["t0"] + cfg["idle"] <= b["t"]
+                if not any(since(c) for c in changes):
+                    what = f"timer {hid}: idle-only run at {b['t']} with no essential change of the object processed in [{a['t']}, {b['t']} - idle]"
+                    if any(since(c) and c.get("lh_same") is not True for c in cycles):
+                        f3(what, prev=a, call=b)
+                    else:
+                        fail("idle-only", what, uid=uid, id=hid, prev=a, call=b)
+
+        # O10 — the schedule goes on: after the last observed run of a timer task that nobody asked to stop, the next run
+        # is due (one interval after a success / on the grid / after the error's delay / idle after the changes) —
+        # if the scenario lasted beyond that instant and no run started, the schedule has silently ended
+        stops = [e[0] for e in sc.get("timeline", []) if len(e) > 1 and e[1] in ("stop", "kill")]
+        for i in my:
+            mine = [c for c in calls if inst_of(c) is i]
+            if not mine or str(i.get("how") or "").startswith("error"):
+                continue
+            if not (i["exit"] is None or i["exit"] >= end_t) or any(t >= i["spawn"] for t in stops):
+                continue        # the task was (or may have been) asked to stop
+            a = mine[-1]
+            if a.get("t_end") is None or a is not calls[-1]:
+                continue
+            kind, d = _kind_of(a, cfg)
+            if kind == "retry" and cfg["timeout"] is not None:
+                continue        # the strict pre-check may end the series instead of a call (C11)
+            pat = patched_of(a)
+            if pat is None or any(c.get("t1") is None for c in cycles):
+                continue
+            lastc = last_cycle_upto(end_t)
+            if kind == "retry":
+                assert d is not None
+                due = max(a["t_end"] + d, pat)
+            elif kind == "success" and cfg["interval"] is not None and not cfg["sharp"]:
+                due = pat + cfg["interval"]
+            elif kind == "success" and cfg["interval"] is not None:
+                import math
+                kk = max(1, math.ceil((pat - a["t"]) / cfg["interval"] - 1e-12))
+                due = a["t"] + kk * cfg["interval"]
+                due = due + cfg["interval"] if due == pat else due
+            elif kind == "success" and cfg["idle"] is not None:
+                if not any(c["t0"] > pat for c in changes):
+                    continue    # idle-only: nothing has changed since the run
+                due = pat       # the poll notices the change within `idle`; covered by the idle allowance below
+            else:
+                continue        # failed for good / one-shot: nothing follows
+            if cfg["idle"] is not None and lastc is not None:
+                due = max(due, lastc + cfg["idle"]) + (cfg["idle"] if cfg["interval"] is None and kind == "success" else 0.0)
+            if due + T < end_t:
+                fail("next-run-missing", f"timer {hid}: no run after the one ended at {a['t_end']} ({kind}) although the next one was due at {due} "
+                     f"and the task was not asked to stop before {end_t}", uid=uid, id=hid, prev=a, due=due)
 
 
 # =================================================================================================
@@ -1116,9 +1311,25 @@ def abstract(sc: dict, tr: dict) -> list[dict]:
         if cfg is None:
             continue
         cj = _cfg_json(cfg)
-        if str(inst.get("how") or "").startswith("error") or inst.get("spin"):
+        last = inst["iters"][-1] if inst["iters"] else None
+        patch_raised = str(inst.get("how") or "")[6:] in INFRA_ERRORS and str(inst.get("how") or "").startswith("error:") \
+            and last is not None and last.get("p0") is not None and last.get("p1") is None
+        # an API error raised by the post-run patch ends the task: in the model a truncation of the sequence (`Exit.raised`,
+        # `Sched` is prefix-closed); the ORACLE reports it (open finding C10-F4). Any other exception is a tie failure.
+        if (str(inst.get("how") or "").startswith("error") and not patch_raised) or inst.get("spin"):
             items.append({"what": "crashed", "inst": {"uid": inst["uid"], "id": inst["id"], "how": inst.get("how"), "spin": inst.get("spin", False),
                                                       "exit": inst["exit"]}})
+        if inst["exit"] is not None and inst.get("how") in ("returned", "cancelled") or patch_raised:
+            # how the task ended → may the timer be spawned again in this operator process (`_runner`'s finally)
+            reason = inst.get("stop_reason") not in (None, "None")
+            # (a reason set by anybody — also while the failing patch was being retried — makes it `stopped`)
+            how_ = "stopped" if reason or inst.get("how") == "cancelled" else "raised" if patch_raised else "returned"
+            failed = any((it.get("outcome") or {}).get("final") and (it.get("outcome") or {}).get("exc") for it in inst["iters"])
+            later = [j for j in tr["c10"]["instances"] if j is not inst and j["uid"] == inst["uid"] and j["id"] == inst["id"]
+                     and j["inc"] == inst["inc"] and j["spawn"] >= inst["exit"]]
+            items.append({"what": "exit", "obs_ok": True, "req": ["C10.exit", how_, bool(failed)], "impl": {"respawned": bool(later)},
+                          "inst": {"uid": inst["uid"], "id": inst["id"], "spawn": inst["spawn"], "exit": inst["exit"]},
+                          "shape": {"gap": "exit", "how": how_, "failed": bool(failed), "respawned": bool(later)}})
         alive_until = inst["exit"] if inst["exit"] is not None else end
         iters = inst["iters"]
         presence = (cfg["interval"] is not None, cfg["sharp"], cfg["idle"] is not None, cfg["initial_delay"] is not None)
@@ -1245,6 +1456,14 @@ def compare(ctx: Ctx, sc: dict, item: dict, out: Any) -> None:
     if item["what"] == "view":
         ctx.compare("C10 idle_reset_time derived from the event history", item["impl"], m, wh)
         return
+    if item["what"] == "exit":
+        # the model says whether the timer MAY come back; it did come back only if it may
+        ctx.tie_comparisons += 1
+        ctx.count("task-exit", f"{item['shape']['how']}{'+failed' if item['shape']['failed'] else ''}:{'respawned' if item['impl']['respawned'] else 'not-respawned'}")
+        if item["impl"]["respawned"] and m is not True:
+            ctx.tie_fail("C10: a timer task was spawned again although the model says the handler is stopped for ever",
+                         {"input": wh, "impl": item["impl"], "model": {"respawnable": m}})
+        return
     res = m["res"]
     impl = item["impl"]
     if item["what"] == "first":
@@ -1317,6 +1536,11 @@ def _evaluate(ctx: Ctx, scenarios: list[dict], results: list[dict], stats: dict,
             if item["what"] == "reset":
                 ctx.case(key=item["shape"], nontrivial=True)
                 ctx.count("idle-reset-decision(last-handled/last-seen vs event)", item["shape"]["lh"] + "/" + item["shape"]["seen"])
+                reqs.append(item["req"])
+                meta.append((sc, item))
+                continue
+            if item["what"] == "exit":
+                ctx.case(key=item["shape"], nontrivial=item["shape"]["how"] != "stopped" or item["shape"]["respawned"])
                 reqs.append(item["req"])
                 meta.append((sc, item))
                 continue
